@@ -42,7 +42,7 @@ func mkPkg(k, n int) tds.Package {
 	switch {
 	case k == 1 && n >= 6:
 		return &tds.LanguagePackage{Status: tds.TDS_LANGUAGE_NOARGS, Cmd: fill(n - 6)}
-	case k == 2 && n >= 8 && n-8 < 65000:
+	case k == 2 && n >= 8 && n-8 < 30000:
 		// token(1)+len(2)+type(1)+status(1)+idlen(1)+id+stmtlen(2)+stmt
 		d := tds.NewDynamicPackage(false)
 		d.Type = tds.TDS_DYN_PREPARE
